@@ -396,25 +396,30 @@ impl ProcfsHandle {
         mut oflags: OpenFlags,
     ) -> Result<File, Error> {
 
-        // ProcfsHandle::open() refuses these flags in the resolver, but the
-        // final open of a magic-link below does not go through it. They make
-        // no sense for procfs (nor for re-opening a handle through its fd
-        // magic-link, where O_CREAT|O_EXCL would just give EEXIST and O_TMPFILE
-        // would create an unnamed file in a directory handle).
-        if oflags.intersects(OpenFlags::O_CREAT | OpenFlags::O_EXCL)
-            || oflags.contains(OpenFlags::O_TMPFILE)
-        {
-            Err(ErrorImpl::InvalidArgument {
-                name: "flags".into(),
-                description: "O_CREAT, O_EXCL and O_TMPFILE cannot be used with procfs handles or reopen".into(),
-            })?
-        }
-
         // Drop any trailing /-es.
         let (subpath, trailing_slash) = utils::path_strip_trailing_slash(subpath);
         if trailing_slash {
             // A trailing / implies we want O_DIRECTORY.
             oflags.insert(OpenFlags::O_DIRECTORY);
+        }
+
+        // ProcfsHandle::open() refuses these flags in the resolver, but the
+        // final open of a magic-link below does not go through it. They make
+        // no sense for procfs (nor for re-opening a handle through its fd
+        // magic-link, where O_CREAT|O_EXCL would just give EEXIST and O_TMPFILE
+        // would create an unnamed file in a directory handle).
+        //
+        // This has to come after the trailing-slash handling above: O_TMPFILE is
+        // __O_TMPFILE|O_DIRECTORY, so "cwd/" with the bare __O_TMPFILE bit would
+        // otherwise pass this check and then be opened as O_TMPFILE. Hence we
+        // look at the __O_TMPFILE bit itself.
+        if oflags.intersects(OpenFlags::O_CREAT | OpenFlags::O_EXCL)
+            || oflags.bits() & (libc::O_TMPFILE & !libc::O_DIRECTORY) != 0
+        {
+            Err(ErrorImpl::InvalidArgument {
+                name: "flags".into(),
+                description: "O_CREAT, O_EXCL and O_TMPFILE cannot be used with procfs handles or reopen".into(),
+            })?
         }
 
         // If the target is not a symlink, use an O_NOFOLLOW open. This defends
